@@ -44,3 +44,26 @@ def _stopiter_fd(plan, viol):
     the stencil points ends that map silently (scipy.optimize._numdiff)."""
     w = viol.get("witness", {})
     return w.get("exception") == "StopIteration" and w.get("actor") == "fun" and w.get("fd_mode") is True
+
+
+@disc("pair_restored_from_checkpoint_within_bound")
+def _restored_pair(plan, viol):
+    """Pairs carried over a restart are rebuilt as differences of reconstructed points: equal to the
+    checkpoint's pairs only up to the reconstruct-by-differences bound (checked by the clause itself)."""
+    w = viol.get("witness", {})
+    return int(w.get("segment", 0)) >= 1 and int(w.get("restored", 0)) >= 1
+
+
+@disc("rewrite_with_rejected_newest_pair")
+def _rewrite_rejected(plan, viol):
+    """update_fun_def rewrote the history and the pair (x_new, previous point) then fails the curvature
+    test: the new point is not stored and the matrices are not rebuilt (they still describe the old objective)."""
+    return viol.get("witness", {}).get("newest_rejected_at_switch") is True
+
+
+@disc("stop_test_fires_right_after_rewrite")
+def _rewrite_then_stop(plan, viol):
+    """A stop test ends the run in the very iteration in which update_fun_def rewrote the history: the
+    result is built from the rewritten but unfiltered history."""
+    w = viol.get("witness", {})
+    return w.get("stopped_right_after_rewrite") is True and w.get("where") == "result"
